@@ -46,9 +46,12 @@ def ssInitLine (ws : List String) : Option (Option (SsCfg × SsSt)) :=
         lookupNat m "b", lookupNat m "balA", lookupNat m "balB" with
   | some amp, some d0, some d1, some p, some s, some b, some ba, some bb =>
     let f : Fees := { prot := p, swap := s, burn := b }
+    let k0 := lookupStr m "k0" "n"
+    let k1 := lookupStr m "k1" "n"
     if amp > U64MAX ∨ d0 > 255 ∨ d1 > 255 then none
+    else if (k0 ≠ "n" ∧ k0 ≠ "c") ∨ (k1 ≠ "n" ∧ k1 ≠ "c") then none
     else if Gen.PAIR_MIN_AMP ≤ amp ∧ amp ≤ Gen.PAIR_MAX_AMP ∧ f.valid then
-      some (some ({ amp := amp, dec0 := d0, dec1 := d1, fees := f }, ssInit ba bb))
+      some (some ({ amp := amp, dec0 := d0, dec1 := d1, fees := f, cw0 := k0 == "c", cw1 := k1 == "c" }, ssInit ba bb))
     else some none
   | _, _, _, _, _, _, _, _ => none
 
